@@ -1,1 +1,275 @@
-/-! Property theorems for C07 (stub: none yet). -/
+/-
+Property C07 - the client speaks DBus only after the server's OK and never stalls in the handshake.
+
+Code model:  Auth/Client.lean  (ClientAuthenticator + client line mode of BasicDBusProtocol, after the
+             repairs fixes/C07-01..04), tables from Gen/ClientAuth.lean.
+Spec:        Auth/ClientSpec.lean (vocabulary of the statement), Auth/SpecServerRef.lean (reference server).
+
+All theorems about runs quantify over: every preference list, both transport kinds, every environment
+(one per line handled), and every list of reads `chunks` - i.e. every sequence of server bytes split
+into reads in every possible way.  `(clientRun pref unix envAt chunks).trace` is what can be observed:
+N (NUL byte), recv l (a line handed to the authenticator), send l (a line written), close, authenticated.
+-/
+import TxdbusModel.Proofs.Auth.ClientSafety
+import TxdbusModel.Proofs.Auth.ClientTraces
+import TxdbusModel.Proofs.Auth.ClientLiveness
+import TxdbusModel.Proofs.Auth.ClientComplete
+import TxdbusModel.Auth.ClientOrig
+
+namespace Txdbus.AuthClient
+
+/-! ## Tables (regenerated from /repo on every run) -/
+
+theorem preference_table :
+    Gen.ClientAuth.preference = [b!"EXTERNAL", b!"DBUS_COOKIE_SHA1", b!"ANONYMOUS"] := by decide
+
+theorem preference_nodup : Gen.ClientAuth.preference.Nodup := by decide
+
+theorem authDelimiter_table : Gen.ClientAuth.authDelimiter = CRLF := by decide
+
+theorem maxAuthLength_table : Gen.ClientAuth.maxAuthLength = 16384 := by decide
+
+/-! ## 1. BEGIN only after OK (and after the descriptor negotiation on UNIX transports) -/
+
+/-- Every BEGIN in the output is preceded by a server line `OK <valid hex GUID>`; on a UNIX transport
+also, after that OK, by the client's NEGOTIATE_UNIX_FD and after that by the server's AGREE_UNIX_FD or
+ERROR.  For all line sequences, transports, environments and splittings into reads. -/
+theorem begin_only_after_ok (pref : List Bytes) (unix : Bool) (envAt : Nat → Env) (chunks : List Bytes) :
+    BeginsJustified unix (clientRun pref unix envAt chunks).trace :=
+  (invB_clientRun pref unix envAt chunks).begins
+
+/-- The client is authenticated (binary mode, `connectionAuthenticated()` ran) iff it sent BEGIN. -/
+theorem authenticated_iff_begin (pref : List Bytes) (unix : Bool) (envAt : Nat → Env) (chunks : List Bytes) :
+    let p := clientRun pref unix envAt chunks
+    (p.authenticated = true ↔ Ev.send (b!"BEGIN") ∈ p.trace) ∧
+    (p.authenticated = true ↔ Ev.authenticated ∈ p.trace) ∧
+    (p.auth.authenticated = p.authenticated) := by
+  have h := invB_clientRun pref unix envAt chunks
+  exact ⟨h.authIff, h.authEv, h.authEq⟩
+
+/-! ## 2. Mechanisms in preference order, each at most once -/
+
+theorem OfferedInOrder.length_eq {ls ms : List Bytes} (h : OfferedInOrder ls ms) : ls.length = ms.length := by
+  induction h with
+  | nil => rfl
+  | cons _ _ ih => simp [ih]
+
+/-- The AUTH lines sent offer exactly the first `k` mechanisms of the preference list, one line each,
+in order, where `k` is the number of AUTH lines; the mechanisms still to be tried are the rest. -/
+theorem mechanisms_once_in_order (pref : List Bytes) (unix : Bool) (envAt : Nat → Env) (chunks : List Bytes) :
+    let p := clientRun pref unix envAt chunks
+    let k := (authLines p.trace).length
+    k ≤ pref.length ∧ OfferedInOrder (authLines p.trace) (pref.take k) ∧ p.auth.authOrder = pref.drop k := by
+  obtain ⟨k, hk, ho, hf⟩ := (invM_clientRun pref unix envAt chunks).ex
+  have hlen : (authLines (clientRun pref unix envAt chunks).trace).length = k := by
+    have := hf.length_eq
+    rw [List.length_take, Nat.min_eq_left hk] at this
+    exact this
+  simp only [hlen]
+  exact ⟨hk, hf, ho⟩
+
+/-- With the real table: no mechanism name occurs twice, so each is offered at most once. -/
+theorem each_mechanism_at_most_once (unix : Bool) (envAt : Nat → Env) (chunks : List Bytes) :
+    let p := clientRun Gen.ClientAuth.preference unix envAt chunks
+    ∃ k, OfferedInOrder (authLines p.trace) (Gen.ClientAuth.preference.take k) ∧
+      (Gen.ClientAuth.preference.take k).Nodup := by
+  have h := mechanisms_once_in_order Gen.ClientAuth.preference unix envAt chunks
+  exact ⟨_, h.2.1, (List.take_sublist _ _).nodup preference_nodup⟩
+
+/-! ## 3. No stall -/
+
+/-- For every open, unauthenticated state and every server line: the step closes the connection
+(writing nothing) or writes exactly one line (BEGIN included: authenticating means writing BEGIN). -/
+theorem no_stall (envAt : Nat → Env) (p : Proto) (l : Bytes)
+    (hopen : p.disconnecting = false) (hunauth : p.authenticated = false) :
+    let p' := processLines envAt p [l]
+    (p'.disconnecting = true ∧ sends p'.trace = sends p.trace) ∨
+    (∃ x, sends p'.trace = sends p.trace ++ [x]) :=
+  processLines_single envAt p l hopen hunauth
+
+/-- On whole runs: every line handed to the authenticator is directly followed by a reaction
+(a line written or the connection closed); the trace never ends in a received line. -/
+theorem no_stall_run (pref : List Bytes) (unix : Bool) (envAt : Nat → Env) (chunks : List Bytes) :
+    ReactsToEveryLine (clientRun pref unix envAt chunks).trace :=
+  (invT_clientRun pref unix envAt chunks).reacts
+
+/-! ## 4. Exhaustion and lines outside the protocol close the connection -/
+
+/-- REJECTED, or ERROR outside the descriptor negotiation, when no mechanism is left: the connection
+is closed and nothing is written. -/
+theorem exhaustion_closes (envAt : Nat → Env) (p : Proto) (l : Bytes)
+    (hopen : p.disconnecting = false) (hunauth : p.authenticated = false)
+    (hexhausted : p.auth.authOrder = [])
+    (hline : (splitCmd l).1 = b!"REJECTED" ∨ ((splitCmd l).1 = b!"ERROR" ∧ p.auth.negotiating = false)) :
+    let p' := processLines envAt p [l]
+    p'.disconnecting = true ∧ sends p'.trace = sends p.trace ∧ p'.authenticated = false :=
+  processLines_single_error envAt p l hopen hunauth (handle_exhausted hexhausted hline)
+
+/-- In a run, "no mechanism is left" is the same as "every mechanism of the list has been offered". -/
+theorem exhausted_iff_all_offered (pref : List Bytes) (unix : Bool) (envAt : Nat → Env) (chunks : List Bytes) :
+    let p := clientRun pref unix envAt chunks
+    p.auth.authOrder = [] ↔ (authLines p.trace).length = pref.length := by
+  have h := mechanisms_once_in_order pref unix envAt chunks
+  simp only at h ⊢
+  rw [h.2.2]
+  constructor
+  · intro hd
+    have := List.drop_eq_nil_iff.mp hd
+    omega
+  · intro he
+    rw [he]; simp
+
+/-- A line whose command word is not one of REJECTED, OK, DATA, ERROR, AGREE_UNIX_FD (unknown
+commands, empty lines, lower case, leading blanks …) closes the connection and nothing is written. -/
+theorem unknown_line_closes (envAt : Nat → Env) (p : Proto) (l : Bytes)
+    (hopen : p.disconnecting = false) (hunauth : p.authenticated = false)
+    (hline : (splitCmd l).1 ∉ serverWords) :
+    let p' := processLines envAt p [l]
+    p'.disconnecting = true ∧ sends p'.trace = sends p.trace ∧ p'.authenticated = false :=
+  processLines_single_error envAt p l hopen hunauth (handle_unknown hline)
+
+/-- After `loseConnection` only further `loseConnection`s can follow (no line, no authentication), and
+after authentication nothing happens in line mode any more. -/
+theorem silent_after_close (pref : List Bytes) (unix : Bool) (envAt : Nat → Env) (chunks : List Bytes) :
+    let tr := (clientRun pref unix envAt chunks).trace
+    SilentAfterClose tr ∧ (∀ pre post, tr = pre ++ Ev.authenticated :: post → post = []) :=
+  ⟨(invT_clientRun pref unix envAt chunks).silent, (invT_clientRun pref unix envAt chunks).final⟩
+
+/-! ## 5. Completion against the reference server -/
+
+/-- For every set of mechanisms accepted by the reference server that contains one the client can
+use (EXTERNAL, or ANONYMOUS, or DBUS_COOKIE_SHA1 with a usable keyring), both transport kinds and
+both answers to NEGOTIATE_UNIX_FD (`cfg.fdAgree` is arbitrary), the composition of the client model
+(real preference table) with the reference server ends with both sides authenticated and the
+connection open.  The server's lines must fit the client's line limit (the GUID and the cookie
+challenge are otherwise arbitrary); hash function, user name, random bytes, cookie are arbitrary. -/
+theorem completes_against_spec_server (unix : Bool) (cfg : SpecServer.Cfg) (env : Env) (guid : Bytes)
+    (hguid : guid ≠ [] ∧ cfg.guidHex = hexlify guid ∧ 2 * guid.length + 3 ≤ maxAuth)
+    (hchallenge : cfg.accepts .cookie = true →
+      5 + 2 * (cfg.cookieCtx.length + 1 + (cfg.cookieId.length + 1 + cfg.challenge.length)) ≤ maxAuth)
+    (haccepts : cfg.accepts .external = true ∨ cfg.accepts .anonymous = true ∨
+      (cfg.accepts .cookie = true ∧ CookieUsable cfg env)) :
+    Completed (handshake Gen.ClientAuth.preference unix cfg (fun _ => env) 16) := by
+  obtain ⟨hg, hgx, hgl⟩ := hguid
+  cases h1 : cfg.accepts .external with
+  | true => exact completes_external unix cfg env guid hg hgx hgl h1
+  | false =>
+    cases h2 : cfg.accepts .cookie with
+    | false =>
+      have h3 : cfg.accepts .anonymous = true := by
+        rcases haccepts with h | h | h
+        · rw [h1] at h; cases h
+        · exact h
+        · rw [h2] at h; cases h.1
+      exact completes_anonymous unix cfg env guid hg hgx hgl h1 h2 h3
+    | true =>
+      cases h3 : cfg.accepts .anonymous with
+      | true => exact completes_cookie_or_anonymous unix cfg env guid hg hgx hgl (hchallenge h2) h1 h2 h3
+      | false =>
+        have hc : CookieUsable cfg env := by
+          rcases haccepts with h | h | h
+          · rw [h1] at h; cases h
+          · rw [h3] at h; cases h
+          · exact h.2
+        exact completes_cookie unix cfg env guid hg hgx hgl h1 h2 hc
+
+/-! ## The hypotheses are satisfiable -/
+
+namespace Example
+
+def env : Env :=
+  { user := b!"root", dirStat := some (0o40700, true),
+    file := fun ctx => if ctx = b!"ctxa" then some (b!"1 100 aabbcc\n7 200 c00c1e\n") else none,
+    rnd := [1, 2, 3, 4, 5, 6, 7, 8], sha1 := fun x => x.take 2 ++ [7], errText := fun _ => b!"e" }
+
+def cfg (ext cookie anon fd : Bool) : SpecServer.Cfg :=
+  { accepts := fun m => match m with | .external => ext | .cookie => cookie | .anonymous => anon,
+    fdAgree := fd, guidHex := hexlify (b!"0123456789abcdef"), cookieCtx := b!"ctxa", cookieId := b!"7",
+    cookie := b!"c00c1e", challenge := b!"feedface", sha1 := fun x => x.take 2 ++ [7] }
+
+/-- A keyring in which the cookie-only server's cookie is found. -/
+example : CookieUsable (cfg false true false false) env := by
+  refine ⟨by decide, by decide, by decide, by decide, by decide, by decide, by decide, by decide, rfl, rfl, ?_⟩
+  intro x; simp [cfg]
+
+/-- The cookie-only configuration on a UNIX transport whose server refuses descriptor passing. -/
+example : Completed (handshake Gen.ClientAuth.preference true (cfg false true false false) (fun _ => env) 16) := by
+  apply completes_against_spec_server true _ env (b!"0123456789abcdef") ⟨by decide, rfl, by decide⟩
+  · intro _; decide
+  · refine Or.inr (Or.inr ⟨rfl, ?_⟩)
+    refine ⟨by decide, by decide, by decide, by decide, by decide, by decide, by decide, by decide, rfl, rfl, ?_⟩
+    intro x; simp [cfg]
+
+/-- A run that authenticates on a UNIX transport (so `begin_only_after_ok` is not vacuous):
+OK, then AGREE_UNIX_FD, delivered with a read boundary inside the first delimiter. -/
+example :
+    (clientRun Gen.ClientAuth.preference true (fun _ => env)
+      [b!"OK 1234\r", b!"\nAGREE_UNIX_FD\r\n"]).trace =
+    [Ev.nul, Ev.send (b!"AUTH EXTERNAL"), Ev.recv (b!"OK 1234"), Ev.send (b!"NEGOTIATE_UNIX_FD"),
+     Ev.recv (b!"AGREE_UNIX_FD"), Ev.send (b!"BEGIN"), Ev.authenticated] := by decide
+
+/-- An open, unauthenticated state with no mechanism left exists (hypotheses of `exhaustion_closes`). -/
+example :
+    let p := clientRun Gen.ClientAuth.preference false (fun _ => env) [b!"REJECTED\r\nERROR\r\n"]
+    p.disconnecting = false ∧ p.authenticated = false ∧ p.auth.authOrder = [] := by decide
+
+end Example
+
+/-! ## Witnesses: the handlers before the repairs break the property (replays of F9-F12) -/
+
+/-- F9 - on a UNIX transport AGREE_UNIX_FD as the very first server line: the unrepaired authenticator
+answers BEGIN and is authenticated without any OK; the repaired one raises (connection closed). -/
+theorem prefix_model_agree_before_ok_begins :
+    Orig.replies Orig.handleAuthMessage Orig.env0 (Orig.start true) [b!"AGREE_UNIX_FD"]
+      = ([some [b!"BEGIN"]], true) ∧
+    Orig.replies handleAuthMessage Orig.env0 (Orig.start true) [b!"AGREE_UNIX_FD"] = ([none], false) := by
+  decide
+
+/-- F10 - after OK and NEGOTIATE_UNIX_FD the server answers ERROR (no descriptor passing): the
+unrepaired authenticator offers the next mechanism instead of BEGIN; the repaired one sends BEGIN. -/
+theorem prefix_model_error_after_negotiate_tries_next :
+    Orig.replies Orig.handleAuthMessage Orig.env0 (Orig.start true) [b!"OK 1234", b!"ERROR"]
+      = ([some [b!"NEGOTIATE_UNIX_FD"], some [b!"AUTH DBUS_COOKIE_SHA1 726f6f74"]], false) ∧
+    Orig.replies handleAuthMessage Orig.env0 (Orig.start true) [b!"OK 1234", b!"ERROR"]
+      = ([some [b!"NEGOTIATE_UNIX_FD"], some [b!"BEGIN"]], true) := by
+  decide
+
+/-- F11 - whatever the challenge and the keyring, the unrepaired cookie step answers ERROR with the
+text of the AttributeError. -/
+theorem prefix_model_cookie_always_error (env : Env) (a : Auth) (args : Bytes)
+    (h : a.authMech = some mCOOKIE) :
+    Orig.authDATA env a args = .ok (a, [b!"ERROR " ++ Orig.attrErrorText]) := by
+  simp [Orig.authDATA, h, mCOOKIE, mEXTERNAL]
+
+/-- F12 - DATA while the mechanism is ANONYMOUS: the unrepaired authenticator writes nothing and
+does not fail (a stall: `no_stall` is false for it); the repaired one answers CANCEL. -/
+theorem prefix_model_data_during_anonymous_stalls :
+    Orig.replies Orig.handleAuthMessage Orig.env0 (Orig.start false) [b!"REJECTED", b!"REJECTED", b!"DATA"]
+      = ([some [b!"AUTH DBUS_COOKIE_SHA1 726f6f74"], some [b!"AUTH ANONYMOUS 747864627573"], some []], false) ∧
+    Orig.replies handleAuthMessage Orig.env0 (Orig.start false) [b!"REJECTED", b!"REJECTED", b!"DATA"]
+      = ([some [b!"AUTH DBUS_COOKIE_SHA1 726f6f74"], some [b!"AUTH ANONYMOUS 747864627573"],
+          some [b!"CANCEL"]], false) := by
+  decide
+
+end Txdbus.AuthClient
+
+#print axioms Txdbus.AuthClient.preference_table
+#print axioms Txdbus.AuthClient.preference_nodup
+#print axioms Txdbus.AuthClient.authDelimiter_table
+#print axioms Txdbus.AuthClient.maxAuthLength_table
+#print axioms Txdbus.AuthClient.begin_only_after_ok
+#print axioms Txdbus.AuthClient.authenticated_iff_begin
+#print axioms Txdbus.AuthClient.OfferedInOrder.length_eq
+#print axioms Txdbus.AuthClient.mechanisms_once_in_order
+#print axioms Txdbus.AuthClient.each_mechanism_at_most_once
+#print axioms Txdbus.AuthClient.no_stall
+#print axioms Txdbus.AuthClient.no_stall_run
+#print axioms Txdbus.AuthClient.exhaustion_closes
+#print axioms Txdbus.AuthClient.exhausted_iff_all_offered
+#print axioms Txdbus.AuthClient.unknown_line_closes
+#print axioms Txdbus.AuthClient.silent_after_close
+#print axioms Txdbus.AuthClient.completes_against_spec_server
+#print axioms Txdbus.AuthClient.prefix_model_agree_before_ok_begins
+#print axioms Txdbus.AuthClient.prefix_model_error_after_negotiate_tries_next
+#print axioms Txdbus.AuthClient.prefix_model_cookie_always_error
+#print axioms Txdbus.AuthClient.prefix_model_data_during_anonymous_stalls
